@@ -376,7 +376,7 @@ func runC09Attack(idx int, rng *rand.Rand) []Case {
 	}
 	time.Sleep(time.Duration(700+rng.Intn(600)) * time.Millisecond)
 	completed := atomic.LoadInt64(&done) // responses fully served by now
-	time.Sleep(400 * time.Millisecond)   // ample time for the client side to record them
+	time.Sleep(1200 * time.Millisecond)  // ample time for the client side to record them, also on a loaded machine
 	cmd.Process.Kill()
 	cmd.Wait()
 	b, _ := os.ReadFile(out)
